@@ -33,7 +33,7 @@ ASSUMPTIONS = [
 ]
 MANDATORY = ["copy-mutate", "operand:unsorted", "operand:nan", "b:subset", "b:superset", "b:disjoint", "b:same"] + ["ok:" + n for n in ops.NAMES]
 
-ATTRS = {"units": "m", "hist": [1, 2], "nested": {"k": [1]}}
+ATTRS = {"units": "m", "hist": [1, 2], "nested": {"k": [1]}, "tags": {1, 2}}       # (a set: metadata that JSON cannot encode)
 AXATTRS = {"long_name": "first axis", "lst": [3]}
 
 
@@ -50,10 +50,14 @@ def case_st(draw):
         n = draw(st.integers(2, 3))
         labels.append(draw(gen.labels(n, kinds="if" if i == 0 else "ifs", order=draw(st.sampled_from(["shuf", "shuf", "dec", "inc"])))))
     ncell = int(np.prod([len(l) for l in labels]))
-    vals = [k / 4.0 + 0.125 for k in draw(st.lists(st.integers(4, 40), min_size=ncell, max_size=ncell, unique=True))]
-    if draw(st.booleans()):
-        vals[draw(st.integers(0, ncell - 1))] = "NaN"
-    a = {"dims": dims, "labels": labels, "vk": "f", "vals": vals, "hist": draw(gen.history(labels))}
+    vk = draw(st.sampled_from("fffi"))
+    if vk == "i":
+        vals = draw(st.lists(st.integers(4, 40), min_size=ncell, max_size=ncell, unique=True))       # integer data (no NaN)
+    else:
+        vals = [k / 4.0 + 0.125 for k in draw(st.lists(st.integers(4, 40), min_size=ncell, max_size=ncell, unique=True))]
+        if draw(st.booleans()):
+            vals[draw(st.integers(0, ncell - 1))] = "NaN"
+    a = {"dims": dims, "labels": labels, "vk": vk, "vals": vals, "hist": draw(gen.history(labels))}
     rel = draw(st.sampled_from(["same", "subset", "superset", "disjoint"]))
     if rel == "same":
         bd = list(dims)
